@@ -12,6 +12,7 @@ Driver for C10.  Operations (one per line; `n` = enum size, `w` = word width):
                      each, what mutable proxies read afterwards, and whether writing the saved value
                      back restores the array
 * `bits n w A`     — digest of the `bit` lines for all i < n
+* `mask w k` / `test w x k` — `fcppt::bit::shifted_mask<W>(k)`, `fcppt::bit::test(x, shifted_mask<W>(k))`
 * `expr n w <rpn> ; <rpn>` — two expressions in reverse Polish notation over
     `L<mask>` initializer list (ascending)      `D<i>.<j>...` initializer list in this order (duplicates allowed)
     `I<mask>` init                              `A<x0>.<x1>...` raw-array constructor
@@ -72,7 +73,7 @@ def bitLine (n w A i : Nat) : String :=
   let c0 := Proxy.assignBool a (Proxy.assignProxy p q) false
   let rest := eq (set s1 i g) a && eq (set s0 i g) a
   s!"S1={ws s1} T1={ws t1} M1={ws t1} C1={ws c1} O1={ws (orIdx a i)} o1={ws (orIdx a i)} " ++
-  s!"S0={ws s0} T0={ws t0} M0={ws t0} C0={ws c0} rd={obs n s1},{obs n s0} rest={b01 rest} g={b01 g}"
+  s!"S0={ws s0} T0={ws t0} M0={ws t0} C0={ws c0} rd={obs n s1},{obs n s0} ps={b01 (Proxy.toBool s1 q)}{b01 (Proxy.toBool s0 q)} cr={b01 (Proxy.toBool a (Proxy.assignProxy q p))} rest={b01 rest} g={b01 g}"
 
 def bitsDigest (n w A : Nat) : String :=
   let h := (List.range n).foldl (fun h i => fnv h (bitLine n w A i)) fnvInit
@@ -161,6 +162,15 @@ def handle (toks : List String) : String :=
   | ["bits", n, w, a] =>
     match n.toNat?, w.toNat?, a.toNat? with
     | some n, some w, some a => if 0 < w ∧ a < 2 ^ n then bitsDigest n w a else "bad-op"
+    | _, _, _ => "bad-op"
+  | ["mask", w, k] =>
+    match w.toNat?, k.toNat? with
+    | some w, some k => if w ∈ [8, 16, 32, 64] ∧ k < w then toString (mask w k).toNat else "bad-op"
+    | _, _ => "bad-op"
+  | ["test", w, x, k] =>
+    match w.toNat?, x.toNat?, k.toNat? with
+    | some w, some x, some k =>
+      if w ∈ [8, 16, 32, 64] ∧ k < w ∧ x < 2 ^ w then b01 (bitTest (BitVec.ofNat w x) (mask w k)) else "bad-op"
     | _, _, _ => "bad-op"
   | "expr" :: n :: w :: rest =>
     match n.toNat?, w.toNat? with
